@@ -230,4 +230,85 @@ theorem orderedMap_zero_all_nil (cm : Bool) (columns : Nat) : ∀ ids ∈ ordere
   obtain ⟨_, _, h⟩ := h
   exact h.symm
 
+/-! ### the shape of a successful render -/
+
+theorem labelLen_map_none (items' : List Wd) (i : Nat) :
+    labelLen (items'.map fun _ => (none : Option NumW)) i = 0 := by
+  unfold labelLen
+  have : (items'.map fun _ => (none : Option NumW)).getD i none = none := by
+    simp only [List.getD_eq_getElem?_getD, List.getElem?_map]
+    cases items'[i]? <;> rfl
+  rw [this]
+
+theorem getD_map_none (items' : List Wd) (i : Nat) :
+    (items'.map fun _ => (none : Option NumW)).getD i none = none := by
+  simp only [List.getD_eq_getElem?_getD, List.getElem?_map]
+  cases items'[i]? <;> rfl
+
+theorem getD_map_some (numw : List NumW) (i : Nat) (hi : i < numw.length) :
+    (numw.map some).getD i none = some numw[i] := by
+  simp only [List.getD_eq_getElem?_getD, List.getElem?_map, List.getElem?_eq_getElem hi,
+    Option.map_some, Option.getD_some]
+
+theorem heights_eq (items' : List Wd) (labels : List (Option NumW)) :
+    (((items'.map Wd.lines).zip labels).map fun (g, l) =>
+        max g.length (match l with | some nw => nw.st.buf.length | none => 0)) =
+      ((items'.zip labels).map fun (it, l) =>
+        max it.lines.length (match l with | some nw => nw.st.buf.length | none => 0)) := by
+  rw [List.zip_map_left, List.map_map]
+  rfl
+
+theorem render_list_shape (cc : CharClass) (st : WSt) (cm : Bool) (columns : Nat) (cw : Option Int)
+    (spacing : Nat) (kp : Option KeyPat) (u : Option Int) (nw : List NumW) (items : List Wd) (w : Int) (r : Wd)
+    (h : (Wd.list st cm columns cw spacing kp u nw items).render cc w = .ok r) :
+    ∃ (items' : List Wd) (labels : List (Option NumW)),
+      items'.length = items.length ∧ labels.length = items.length ∧
+      (∀ i, (hi : i < items.length) → (hi' : i < items'.length) →
+        items[i].render cc (usedWidth cw columns spacing w - labelLen labels i) = .ok items'[i]) ∧
+      (∀ i, i < items.length →
+        match kp with
+        | some k => ∃ s, renderTextSt cc {} (k.label i) (k.label i).length = .ok s ∧
+                      labels.getD i none = some ⟨s, k.label i⟩
+        | none => labels.getD i none = none) ∧
+      r.lines = (drawColumns (usedWidth cw columns spacing w) spacing labels (items'.map Wd.lines)
+        (rowHeight cm columns (((items'.map Wd.lines).zip labels).map fun (g, l) =>
+          max g.length (match l with | some nw => nw.st.buf.length | none => 0)))
+        (orderedMap cm columns items'.length) {} 0).buf := by
+  rw [render_list_eq] at h
+  split at h
+  · cases h
+  · split at h
+    · cases h
+    · rename_i numw items' heq
+      cases h
+      have ⟨l1, l2, l3⟩ := renderListItems_ok cc _ kp items 0 numw items' heq
+      cases kp with
+      | none =>
+        simp only [] at l2 ⊢
+        refine ⟨items', items'.map fun _ => none, l1, by simp [l1], ?_, ?_, ?_⟩
+        · intro i hi hi'
+          have := l3 i hi hi'
+          rw [labelLen_map_none]
+          simpa [kpLabelLen] using this
+        · intro i _
+          exact getD_map_none items' i
+        · rw [heights_eq]; rfl
+      | some k =>
+        simp only [] at l2 ⊢
+        refine ⟨items', numw.map some, l1, by simp [l2.1], ?_, ?_, ?_⟩
+        · intro i hi hi'
+          have := l3 i hi hi'
+          have ⟨s, _, hs⟩ := l2.2 i (by omega)
+          have hl : labelLen (numw.map some) i = (k.label i).length := by
+            unfold labelLen
+            rw [getD_map_some numw i (by omega), hs]
+            simp
+          rw [hl]
+          simpa [kpLabelLen] using this
+        · intro i hi
+          have ⟨s, hs1, hs2⟩ := l2.2 i (by omega)
+          simp only [Nat.zero_add] at hs1 hs2
+          exact ⟨s, hs1, by rw [getD_map_some numw i (by omega), hs2]⟩
+        · rw [heights_eq]; rfl
+
 end Simpleline
